@@ -1,5 +1,7 @@
 import Verif.Common.Proto
 import Verif.C11.Model
+import Verif.C11.Format
+import Verif.C11.Package
 /-!
 Line protocol of the C11 model driver.
 
@@ -16,6 +18,22 @@ Line protocol of the C11 model driver.
       -> one 0/1 per diagnostic, then `/`, then 0/1: U1000 objects reported
   exit <all:list> <fail:list> <showIgnored> <noCompile> <fmt> <diags>
       -> <exit> <errors> <warnings> <ignored> <per diag: - not shown | e | w | i>
+
+  chars <codepoint>*                              -> per code point `<isNumber 0|1>:<toLowerChar code point>`
+  selmap <all:list> <sel:list>                    -> `L:` the keys the map of filterAnalyzerNames maps to true
+  pkg <all:list> <dflt:checks> <cmd:checks> <n> (<dir> <level>)*n <k> (<dir> <0|1 inCache>)*k
+      -> <effective:checks> <bits: packageAllowed per analyzer of all>       (dir ::= `D:` names outermost first)
+  lintpkg <all:list> <sel:list> <problems> <directives> <unused:problems>
+      -> reported problems `cat/ignored/file/line/col` joined by `,`
+  exitcode lint|merge <format:name> <showIgnored> <noCompile> <all:list> <fail:list> <problems>  -> exit code (0, 1, 2)
+  fmt <format> <showIgnored> <noCompile> <all:list> <fail:list> <short table> <problems>
+      -> <exit> <total> <errors> <warnings> <ignored> <rendering>   (see `showRendering`)
+
+  problem   ::= cat/ign/file/line/col/efile/eline/ecol/msg/build/related   (names as `x`hex)
+  related   ::= (file:line:col:efile:eline:ecol:msg) joined by `;`
+  problems  ::= `P:` problem (`,` problem)*
+  directive ::= kind(l|f|m|u)/checks(names joined by `;`)/file/line/col/dfile/dline/dcol ;  directives ::= `G:` …
+  short table ::= `S:` (name=name) joined by `,`      (shortPath of every file name that occurs)
 -/
 namespace Verif.C11
 open Verif.Proto
@@ -79,8 +97,192 @@ def bits (l : List Bool) : String := String.ofList (l.map fun b => if b then '1'
 def sevChar : Sev → Char
   | .error => 'e' | .warning => 'w' | .ignored => 'i'
 
+/-! ### rich problems, directives, directories -/
+
+def parsePos3 (f l c : String) : Option Pos := do
+  let f ← parseName f
+  let l ← parseNat l
+  let c ← parseNat c
+  pure ⟨f, l, c⟩
+
+def parseRelated (s : String) : Option Related :=
+  match s.splitOn ":" with
+  | [f, l, c, ef, el, ec, m] => do
+    let p ← parsePos3 f l c
+    let e ← parsePos3 ef el ec
+    let m ← parseName m
+    pure ⟨p, e, m⟩
+  | _ => none
+
+def parseProblem (s : String) : Option Problem :=
+  match s.splitOn "/" with
+  | [cat, ign, f, l, c, ef, el, ec, msg, build, rel] => do
+    let cat ← parseName cat
+    let ign ← parseBool ign
+    let p ← parsePos3 f l c
+    let e ← parsePos3 ef el ec
+    let msg ← parseName msg
+    let build ← parseName build
+    let rel ← if rel = "" then some [] else (rel.splitOn ";").mapM parseRelated
+    pure { cat := cat, ignored := ign, pos := p, stop := e, msg := msg, related := rel, build := build }
+  | _ => none
+
+def parseProblems (s : String) : Option (List Problem) :=
+  match s.toList with
+  | 'P' :: ':' :: rest => parseItems parseProblem (String.ofList rest)
+  | _ => none
+
+def parseKind : String → Option DKind
+  | "l" => some .line | "f" => some .file | "m" => some .malformed | "u" => some .unknown | _ => none
+
+def parseDirective (s : String) : Option Directive :=
+  match s.splitOn "/" with
+  | [k, cs, f, l, c, df, dl, dc] => do
+    let k ← parseKind k
+    let cs ← if cs = "" then some [] else (cs.splitOn ";").mapM parseName
+    let n ← parsePos3 f l c
+    let d ← parsePos3 df dl dc
+    pure ⟨k, cs, n, d⟩
+  | _ => none
+
+def parseDirectives (s : String) : Option (List Directive) :=
+  match s.toList with
+  | 'G' :: ':' :: rest => parseItems parseDirective (String.ofList rest)
+  | _ => none
+
+/-- `D:` names outermost first -> innermost first. -/
+def parseDir (s : String) : Option Dir :=
+  match s.toList with
+  | 'D' :: ':' :: rest => (parseItems parseName (String.ofList rest)).map List.reverse
+  | _ => none
+
+def parseShort (s : String) : Option (List (Name × Name)) :=
+  match s.toList with
+  | 'S' :: ':' :: rest =>
+    parseItems (fun it => match it.splitOn "=" with
+      | [a, b] => do
+        let a ← parseName a
+        let b ← parseName b
+        pure (a, b)
+      | _ => none) (String.ofList rest)
+  | _ => none
+
+def takePairs {α β : Type} (fa : String → Option α) (fb : String → Option β) :
+    Nat → List String → Option (List (α × β) × List String)
+  | 0, rest => some ([], rest)
+  | n + 1, a :: b :: rest => do
+    let x ← fa a
+    let y ← fb b
+    let (l, r) ← takePairs fa fb n rest
+    pure ((x, y) :: l, r)
+  | _, _ => none
+
+def showPosStr : PosStr → String
+  | .dash => "-"
+  | .file f => "f:" ++ showName f
+  | .lc l c => s!"l:{l}:{c}"
+  | .flc f l c => s!"q:{showName f}:{l}:{c}"
+
+def showTextLine : TextLine → String
+  | .problem pos msg build code => s!"P~{showPosStr pos}~{showName msg}~{showName build}~{showName code}"
+  | .related pos msg => s!"R~{showPosStr pos}~{showName msg}"
+
+def showStyLine : StyLine → String
+  | .blank => "B"
+  | .header f => "H~" ++ showName f
+  | .row l c code msg => s!"W~{l}~{c}~{showName code}~{showName msg}"
+  | .rel l c msg => s!"L~{l}~{c}~{showName msg}"
+
+def showPosF (p : Pos) (sep : String) : String := s!"{showName p.file}{sep}{p.line}{sep}{p.col}"
+
+def showJObj (o : JObj) : String :=
+  let rels := ";".intercalate (o.related.map fun r =>
+    s!"{showPosF r.location ":"}:{showPosF r.stop ":"}:{showName r.message}")
+  s!"O~{showName o.code}~{showName o.severity}~{showPosF o.location "~"}~{showPosF o.stop "~"}~{showName o.message}~{rels}"
+
+def showALoc (a : ALoc) (sep : String) : String := s!"{showName a.path}{sep}{showBool a.srcroot}"
+
+def showRegion (r : Region) (sep : String) : String :=
+  s!"{r.startLine}{sep}{r.startCol}{sep}{r.endLine}{sep}{r.endCol}"
+
+def showSResult (r : SResult) : String :=
+  let rels := ";".intercalate (r.related.map fun s =>
+    s!"{s.id}:{showName s.msg}:{showALoc s.loc ":"}:{showRegion s.region ":"}")
+  let supp := if r.suppressions.isEmpty then "-" else ",".intercalate (r.suppressions.map showName)
+  s!"X~{showName r.ruleId}~{showName r.text}~{showALoc r.loc "~"}~{showRegion r.region "~"}~{supp}~{rels}"
+
+def bar (l : List String) : String := if l.isEmpty then "-" else "|".intercalate l
+
+def showRendering : Rendering → String
+  | .text ls => bar (ls.map showTextLine)
+  | .stylish s => bar (s.lines.map showStyLine)
+  | .json os => bar (os.map showJObj)
+  | .sarif s => bar (("U~" ++ ",".intercalate (s.rules.map showName)) :: s.results.map showSResult)
+  | .null => "-"
+
+def showReported (p : Problem) : String :=
+  s!"{showName p.cat}/{showBool p.ignored}/{showName p.pos.file}/{p.pos.line}/{p.pos.col}"
+
+/-- keys of the association list that read as `true`, each once. -/
+def trueKeys (m : AMap) : List Name :=
+  (m.map (·.1)).eraseDups.filter fun k => m.get k
+
+def stepPkg (all dflt cmd : String) (rest : List String) : String :=
+  match parseList all, parseChecks dflt, parseChecks cmd, rest with
+  | some a, some d, some c, n :: rest =>
+    match parseNat n with
+    | none => "bad-op"
+    | some n =>
+      match takePairs parseDir parseLevel n rest with
+      | some (confs, k :: rest) =>
+        match parseNat k with
+        | none => "bad-op"
+        | some k =>
+          match takePairs parseDir parseBool k rest with
+          | some (files, []) =>
+            let fs : ConfFS := fun dir => (confs.lookup dir).getD .absent
+            let fl := files.map fun (dir, b) => (⟨dir, b⟩ : SrcFile)
+            s!"{showChecks (packageEffective fs d c fl)} b{bits (a.map (packageAllowed a fs d c fl))}"
+          | _ => "bad-op"
+      | _ => "bad-op"
+  | _, _, _, _ => "bad-op"
+
 def step (line : String) : String :=
   match tokens line with
+  | "chars" :: cps =>
+    match cps.mapM parseNat with
+    | some ns => " ".intercalate (ns.map fun n =>
+        let c := Char.ofNat n
+        s!"{showBool (isNumber c)}:{(toLowerChar c).toNat}")
+    | none => "bad-op"
+  | ["selmap", all, sel] =>
+    match parseList all, parseList sel with
+    | some a, some s => showList (trueKeys (filterAnalyzerNames (a.map lower) (s.map lower)))
+    | _, _ => "bad-op"
+  | "pkg" :: all :: dflt :: cmd :: rest => stepPkg all dflt cmd rest
+  | ["lintpkg", all, sel, probs, dirs, unused] =>
+    match parseList all, parseList sel, parseProblems probs, parseDirectives dirs, parseProblems unused with
+    | some a, some s, some ps, some ds, some us =>
+      let m := filterAnalyzerNames (a.map lower) (s.map lower)
+      let out := lintPackageP (fun x y => x == y) m ps ds us
+      if out.isEmpty then "-" else ",".intercalate (out.map showReported)
+    | _, _, _, _, _ => "bad-op"
+  | ["exitcode", mode, fmt, si, nc, all, fail, probs] =>
+    match parseName fmt, parseBool si, parseBool nc, parseList all, parseList fail, parseProblems probs with
+    | some fmt, some si, some nc, some a, some f, some ps =>
+      if mode = "lint" then toString (lintExit fmt a f si nc ps)
+      else if mode = "merge" then toString (mergeExit fmt a f si nc ps)
+      else "bad-op"
+    | _, _, _, _, _, _ => "bad-op"
+  | ["fmt", fmt, si, nc, all, fail, short, probs] =>
+    match parseFormat fmt, parseBool si, parseBool nc, parseList all, parseList fail, parseShort short,
+        parseProblems probs with
+    | some fmt, some si, some nc, some a, some f, some tbl, some ps =>
+      let sh : Name → Name := fun n => (tbl.lookup n).getD n
+      let (r, e) := output sh a f si nc fmt ps
+      let st := stats a f si nc ps
+      s!"{e} {st.total} {st.errors} {st.warnings} {st.ignored} {showRendering r}"
+    | _, _, _, _, _, _, _ => "bad-op"
   | "load" :: dflt :: cmd :: levels =>
     match parseChecks dflt, parseChecks cmd, levels.mapM parseLevel with
     | some d, some c, some ls =>
